@@ -12,7 +12,8 @@ class Life:
 
     def reset(self):
         self.interval = self.r.choice([30, 60, 60, 90])
-        self.ops.append({"op": "Reset", "interval": self.interval})
+        self.slow = self.r.choice([0, 0, 0, 7, 20])       # seconds the pool takes to answer a keep-alive
+        self.ops.append({"op": "Reset", "interval": self.interval, "slow": self.slow})
         self.running = False
         self.waitq = 0
         self.early = False     # a caller is blocked in Wait since before the loop ended
@@ -30,11 +31,25 @@ class Life:
         if connectfail:
             return
         self.since = 1
+        self.now += self.slow            # the first keep-alive is answered after `slow`
         if failat == 1:
             return
         self.running, self.t0 = True, self.now
 
+    def settle(self):
+        """with a slow pool: leave the window in which a periodic keep-alive is still being answered (an operation issued
+        inside it would wait for it, by design)"""
+        if self.slow and self.now >= self.t0 + self.interval:
+            phase = (self.now - self.t0) % self.interval
+            if phase < self.slow + 1:
+                self.sleep(self.slow + 1 - phase)
+
     def sleep(self, d):
+        end = self.now + d
+        if self.slow and end >= self.t0 + self.interval:
+            phase = (end - self.t0) % self.interval
+            if phase < self.slow + 1:
+                d += self.slow + 1 - phase        # do not stop watching while a periodic keep-alive is still being answered
         self.ops.append({"op": "Sleep", "d": d})
         self.advance(d)
 
@@ -59,6 +74,7 @@ class Life:
 
     def step(self):
         r = self.r
+        self.settle()
         if self.got > 0:
             self.ops.append({"op": "Collect"})
             self.got = 0
@@ -67,7 +83,8 @@ class Life:
             self.ops.append({"op": "Wait"})
             self.waitq -= 1
             return
-        if not self.early and r.random() < 0.08:
+        busy_next = self.slow and self.now + 1 >= self.t0 + self.interval and (self.now + 1 - self.t0) % self.interval < self.slow + 1
+        if not self.early and not busy_next and r.random() < 0.08:
             self.ops.append({"op": "WaitEarly"})
             self.early = True
             self.advance(1)        # the driver watches the blocked call for one second
@@ -80,6 +97,7 @@ class Life:
                     self.ops.append({"op": "StartHeld"})
                 self.ops.append({"op": "Release"})
                 self.failat, self.since = 0, 1
+                self.now += self.slow
                 self.running, self.t0 = True, self.now
             else:
                 self.start(connectfail=r.random() < 0.15, failat=r.choice([0, 0, 0, 0, 1, 2, 3, 5]))
@@ -92,6 +110,7 @@ class Life:
         elif x < 0.75:
             self.ops.append({"op": "Force"})
             self.since += 1
+            self.advance(self.slow)
         else:
             self.ops.append({"op": "Stop"})
             self.ended()
@@ -105,6 +124,7 @@ def life_script(seed, ntraces, nops):
         for _ in range(nops):
             g.step()
         # end tidy: stop a running loop and collect its result
+        g.settle()
         if g.early and not g.running:
             g.start()                      # the caller still blocked in Wait is released by one more run
         if g.running:
